@@ -12,29 +12,6 @@ open Flute Flute.FdtAbs Flute.Spec.Fdt Flute.Lemmas.FdtAbs
 
 /-! ## which files an instance lists -/
 
-private theorem filter_tr_F (l : List FileDesc) :
-    (l.filter (fun f => f.transferring)).map (fun f => f.toi) =
-      ((l.map viewF).filter (fun v => v.2.2.1)).map (fun v => v.1) := by
-  induction l with
-  | nil => rfl
-  | cons f l ih =>
-    simp only [List.filter_cons, List.map_cons, viewF]
-    by_cases h : f.transferring = true
-    · simp only [h, if_true, List.map_cons]; rw [ih]
-    · simp only [h, Bool.false_eq_true, if_false]; exact ih
-
-private theorem filter_tr_G (g : List G) :
-    ((g.filter (fun x => x.live)).filter (fun x => x.transferring)).map (fun x => x.toi) =
-      ((absFiles g).filter (fun v => v.2.2.1)).map (fun v => v.1) := by
-  unfold absFiles
-  induction (g.filter (fun x => x.live)) with
-  | nil => rfl
-  | cons x l ih =>
-    simp only [List.filter_cons, List.map_cons, viewG]
-    by_cases h : x.transferring = true
-    · simp only [h, if_true, List.map_cons]; rw [ih]
-    · simp only [h, Bool.false_eq_true, if_false]; exact ih
-
 /-- `fdt_lists_exactly`: after ANY history, an instance built at any time lists (in add order) exactly
     - FullFDT: the objects added, not removed, not finished;
     - ObjectsBeingTransferred: those of them in transmission,
@@ -66,36 +43,6 @@ theorem fdt_lists_exactly (cfg : Cfg) (ops : List Op) (now : Nat) :
     unfold announcedBeingTransferred
     rw [filter_tr_G]
 
-private theorem popQueue_inst_files (s : State) (t : Nat) : (instanceAt (popQueue s) t).files = (instanceAt s t).files := by
-  unfold instanceAt listedFiles
-  simp only [popQueue_cfg, popQueue_files]
-
-private theorem step_pub_inst (s : State) (op : Op) (p : Pub) (hp : p ∈ (step s op).2.1) :
-    p.inst.files = (instanceAt (step s op).1 p.time).files := by
-  cases op with
-  | add a => simp [step] at hp
-  | remove t => simp [step] at hp
-  | publish now => simp [step, publish] at hp; subst hp; rfl
-  | setComplete => simp [step] at hp
-  | tstart t now =>
-    simp only [step, tstart] at hp ⊢
-    split at hp
-    · rename_i hany
-      simp only [hany, if_true]
-      cases hm : s.cfg.mode with
-      | beingTransferred => simp [hm, publish] at hp ⊢; subst hp; rfl
-      | fullFdt => simp [hm] at hp
-    · simp at hp
-  | tdone t now => simp [step] at hp
-  | poll now =>
-    simp only [step, poll] at hp ⊢
-    by_cases h : needRepublish s now = true
-    · simp only [h, if_true, List.mem_singleton] at hp ⊢
-      subst hp
-      rw [popQueue_inst_files]
-      rfl
-    · simp [h] at hp
-
 /-- the same for every instance actually published: the instance published by the last operation of a history lists
     exactly the objects announced at that point of the trace -/
 theorem publication_lists_exactly (cfg : Cfg) (pre : List Op) (op : Op) (p : Pub)
@@ -103,6 +50,85 @@ theorem publication_lists_exactly (cfg : Cfg) (pre : List Op) (op : Op) (p : Pub
     p.inst.files.map (fun f => f.toi) = announced cfg.mode (track (trace (init cfg) (pre ++ [op]))) := by
   rw [step_pub_inst _ _ _ hp, ← fdt_lists_exactly cfg (pre ++ [op]) p.time, run_append]
   simp [run]
+
+/-! ## attributes -/
+
+/-- `file_attrs_unaltered`: every file entry of an instance built after ANY history stems from an `add` of the trace that
+    returned its TOI, and carries exactly the values given there: location, lengths, type, encoding, MD5, ETag, groups,
+    cache directive (relative expiry anchored at the instance time), and - resolving File-level over FDT-level
+    attributes as a reader does - the FEC-OTI attributes of the OTI the object is sent with (per-object override or
+    session default, Z = number of source blocks for RaptorQ / Raptor). -/
+theorem file_attrs_unaltered (cfg : Cfg) (ops : List Op) (now : Nat) (f : AFile)
+    (hf : f ∈ (instanceAt (run (init cfg) ops).1 now).files) :
+    ∃ a o, (Op.add a, Res.added (.ok f.toi)) ∈ trace (init cfg) ops ∧
+      effectiveOti cfg.oti a = .ok (some o) ∧
+      f.location = a.location ∧ f.contentLength = some a.contentLength ∧
+      f.transferLength = some a.transferLength ∧ f.contentType = some a.contentType ∧
+      f.contentEncoding = (if a.cenc = 0 then none else some (cencStr a.cenc)) ∧
+      f.md5 = a.md5 ∧ f.etag = a.etag ∧ f.groups = a.groups.getD [] ∧
+      f.cache = a.cache.map (fun cc => fdtCache cc now) ∧
+      resolveOti (instanceAt (run (init cfg) ops).1 now).oti f.oti = getAttributes o := by
+  rcases file_origin cfg ops now f hf with ⟨fd, _, rfl, hev, hoti⟩
+  refine ⟨fd.attrs, fd.oti, hev, hoti, rfl, rfl, rfl, rfl, rfl, rfl, rfl, rfl, rfl, ?_⟩
+  have : (instanceAt (run (init cfg) ops).1 now).oti = fdtOtiAttrs cfg.oti := by
+    simp only [instanceAt, run_cfg]; rfl
+  rw [this]
+  exact resolve_fileOti cfg.oti fd hoti
+
+/-- the FDT-level groups are the configured ones -/
+theorem fdt_groups_unaltered (cfg : Cfg) (ops : List Op) (now : Nat) :
+    (instanceAt (run (init cfg) ops).1 now).groups = cfg.groups.getD [] := by
+  simp only [instanceAt, run_cfg]; rfl
+
+/-- the TOIs handed out by `add` are pairwise different, so "the `add` that returned this TOI" is unique -/
+theorem added_tois_fresh (cfg : Cfg) (pre post : List Op) (a b : ObjAttrs) (t : Nat)
+    (h1 : (step (run (init cfg) pre).1 (.add a)).2.2 = .added (.ok t))
+    (h2 : (Op.add b, Res.added (.ok t)) ∈ trace (step (run (init cfg) pre).1 (.add a)).1 post) : False := by
+  have hlt : t < (step (run (init cfg) pre).1 (.add a)).1.nextToi := by
+    simp only [step, Res.added.injEq] at h1 ⊢
+    exact add_ok_lt _ a t h1
+  exact trace_toi_ge _ post b t h2 |> fun h => absurd hlt (Nat.not_lt.mpr h)
+
+/-! ## flute's receiver reads the same values back -/
+
+/-- `receiver_reads_same`: for every file entry of an instance built after ANY history, the model of flute's receiver-side
+    extraction (`get_oti_for_file`, `get_transfer_length`, `get_object_cache_control`, `attach_fdt`/`create_meta`) applied to
+    the abstract instance returns the sender's values: location, lengths, type, content encoding, MD5, ETag, the OTI the
+    object is sent with (all fields, scheme-specific info decoded), the cache directive (`Spec.Fdt.cacheRead`), and the
+    FDT-level followed by the per-object groups as the XML library reads element text (`rd`, see D23).
+    Hypotheses = the real field ranges of what was announced (`Oti.wf`/`coherent`, cenc in 0..3) and NTP era 0. -/
+theorem receiver_reads_same (rd : String → String) (cfg : Cfg) (ops : List Op) (now : Nat) (f : AFile)
+    (hf : f ∈ (instanceAt (run (init cfg) ops).1 now).files)
+    (hera : now / 1000000 + 2208988800 + cfg.durationUs / 1000000 < 2^32)
+    (hin : ∀ a t, (Op.add a, Res.added (.ok t)) ∈ trace (init cfg) ops →
+        (a.oti.getD cfg.oti).wf ∧ (a.oti.getD cfg.oti).coherent ∧ a.cenc ≤ 3 ∧ cacheInEra now a.cache) :
+    ∃ a o, (Op.add a, Res.added (.ok f.toi)) ∈ trace (init cfg) ops ∧
+      effectiveOti cfg.oti a = .ok (some o) ∧
+      recvMeta rd (instanceAt (run (init cfg) ops).1 now) f = .ok (some
+        { location := a.location, contentLength := some a.contentLength, transferLength := a.transferLength,
+          contentType := some a.contentType, cenc := a.cenc, md5 := a.md5, oti := o,
+          cache := cacheRead cfg.durationUs now a.cache, etag := a.etag,
+          groups := (cfg.groups.getD [] ++ a.groups.getD []).map rd }) := by
+  rcases file_origin cfg ops now f hf with ⟨fd, _, rfl, hev, hoti⟩
+  obtain ⟨hwf, hco, hce, hca⟩ := hin fd.attrs fd.toi hev
+  have hcfg : (run (init cfg) ops).1.cfg = cfg := run_cfg (init cfg) ops
+  refine ⟨fd.attrs, fd.oti, hev, hoti, ?_⟩
+  unfold recvMeta
+  rw [recvOtiForFile_eq _ now fd (by rw [hcfg]; exact hoti) (by rw [hcfg]; exact hwf) (by rw [hcfg]; exact hco)]
+  simp only
+  have hg : (instanceAt (run (init cfg) ops).1 now).groups = cfg.groups.getD [] := by
+    simp only [instanceAt, hcfg]
+  rw [recvCenc_eq fd now hce, recvCache_eq _ now fd (by rw [hcfg]; exact hera) hca, hcfg, hg]
+  rfl
+
+/-- with an XML reader that returns element text unaltered the groups arrive unaltered (for quick-xml this holds for
+    strings without U+2028 / U+0085 / CR - finding D23) -/
+theorem groups_read_unaltered (rd : String → String) (gs : List String) (h : ∀ g ∈ gs, rd g = g) : gs.map rd = gs := by
+  induction gs with
+  | nil => rfl
+  | cons g gs ih =>
+    simp only [List.map_cons]
+    rw [h g (by simp), ih (fun x hx => h x (by simp [hx]))]
 
 /-! ## Expires -/
 
@@ -125,6 +151,14 @@ theorem ntpSecs_eq_floor (t : Nat) (h : t / 1000000 + 2208988800 < 2^32) : ntpSe
 example : ntpSecs 1700000000900000 = 3908988800 := by decide
 
 /-! ## instance ids -/
+
+/-- every instance id fits the 20-bit field of EXT_FDT (so the version nibble next to it is never disturbed) -/
+theorem id_in_range (cfg : Cfg) (hstart : cfg.startId < 2^20) (ops : List Op) (p : Pub)
+    (hp : p ∈ (run (init cfg) ops).2) : p.id < 2^20 := by
+  rcases List.getElem?_of_mem hp with ⟨k, hk⟩
+  rw [run_ids (init cfg) hstart ops k p hk]
+  exact Nat.mod_lt _ (by decide)
+
 
 /-- `id_sequence`: the k-th publication (explicit, automatic or on transfer start) carries `(fdt_start_id + k) mod 2^20` -/
 theorem id_sequence (cfg : Cfg) (hstart : cfg.startId < 2^20) (ops : List Op) (k : Nat) (p : Pub)
